@@ -99,7 +99,8 @@ def prepare(pid, ctx):
         extra_viol = []
         for cfg in ('release', 'docstrings'):
             rc, keys, stats, tail = _inner(pid, {'ASD_CFG': cfg, 'ASD_FACTS_BASE': os.path.join(tmp, 'facts-' + cfg)}, os.path.join(tmp, 'ev-' + cfg))
-            only = sorted(keys - base_keys)
+            # floors are counts confirmed on the dev configuration (overflow checks on); they are not compared across configurations
+            only = sorted(k for k in keys - base_keys if not k.endswith('|FLOOR'))
             cfgs[cfg] = {'exit': rc, 'stats_obligations_discharged_known_new': stats, 'violation_keys_not_in_dev': only}
             if rc == 2:
                 cfgs[cfg]['note'] = 'this configuration does not build'
